@@ -600,6 +600,8 @@ def _digits_only(prog, f, b, t):
             for pb, pt in parent.calls():
                 if any(a.kind != "const" and ("closure:%s" % f.path) in prim.origin_of_operand(parent, a).fmt() for a in pt.args) and pt.j.get("callee_name") in ("map", "map_or", "map_or_else", "and_then"):
                     src = prim.expand_single_def_vars(parent, prim.origin_of_operand(parent, pt.args[0]))
+    src_fn = prog.fns.get(f.closure_of) if (f.closure_of and src is not recv) else f
+    src = prim.resolve_promoted(src_fn or f, prim.renorm(prim.expand_single_def_vars(src_fn or f, src, depth=6)))
     s = src.fmt()
     m = _re.search(r"(?:Index::index|get)\(&?\(?(?:.*?)Regex::captures\(.*?Regex::new\(&\*'((?:[^'\\\\]|\\\\.)*)'\).*?, (\d+)\)", s)
     pat = None
@@ -611,6 +613,14 @@ def _digits_only(prog, f, b, t):
         calls = [c.a["name"] for c in src.call_nodes()]
         if len(lits) == 1 and "captures" in calls and ("index" in calls or "get" in calls) and nums:
             pat, n = lits[0], nums[-1]
+        elif len(lits) == 1 and "captures" in calls and src is not recv:
+            # the group is picked inside the closure (`captures(s).and_then(|groups| groups[2].parse())`): the closure's
+            # parameter is the Captures the parent built
+            r_ = recv.strip()
+            inner_n = [c_.get("v") for c_ in recv.consts() if isinstance(c_.get("v"), int) and not isinstance(c_.get("v"), bool)]
+            picks = [x for x in recv.walk() if (x.k == "index" or (x.k == "call" and x.a["name"] in ("index", "get"))) and any(y.k == "arg" and y.a.get("idx", 0) >= 2 for y in x.walk())]
+            if len(picks) == 1 and len(inner_n) == 1:
+                pat, n = lits[0], inner_n[0]
     if pat is not None:
         g = _group_text(pat.replace("\\\\", "\\"), n)
         if g is not None and _re.fullmatch(r"(\\d|\[0-9\])(\+|\{\d+(,\d*)?\})", g):
